@@ -47,7 +47,7 @@ PROFILE_U = ["s:resp1", "s:resp1es", "s:info1", "s:data1", "s:data1es", "s:trail
              "s:resp2es", "c:rst1", "s:rst1", "c:data1", "c:end1", "c:incr1", "s:ping", "c:trailers1"]
 
 
-def make_client(cfg, pending):
+def make_client(cfg):
     import h2.settings
     c = H.new_conn(True)
     init = {3: 100, 6: 65536}
@@ -55,11 +55,16 @@ def make_client(cfg, pending):
         if v is not None:
             init[k] = v
     c.local_settings = h2.settings.Settings(client=True, initial_values=init)
+    # what H2Connection.__init__ derives from its local settings, kept consistent with the installed ones
+    # (there is no public constructor argument for initial settings; a client "configured with" them is one
+    # whose derived state matches, exactly as after __init__)
     c.max_inbound_frame_size = c.local_settings.max_frame_size
-    if pending:
-        c.update_settings({4: 12345, 1: 77})
-        c.data_to_send()
+    c.decoder.max_allowed_table_size = c.local_settings.header_table_size
+    c.decoder.max_header_list_size = c.local_settings.max_header_list_size
     return c
+
+
+PENDING_UPDATE = {4: 12345, 1: 77}
 
 
 def job_cfg(job):
@@ -73,19 +78,28 @@ def job_cfg(job):
             case = {"cfg": [list(x) for x in cfg], "pending": pending}
 
             def bad(kind, msg, **sig):
-                s = {"kind": kind}
+                s = {"kind": kind, "pending": pending}
                 s.update(sig)
                 k = repr(sorted(s.items()))
                 if k not in viols:
                     viols[k] = {"kind": kind, "sig": s, "msg": "[client settings %r, pending=%s] %s" % (dict(cfg), pending, msg), "case": case}
             try:
-                c = make_client(cfg, pending)
+                c = make_client(cfg)
             except Exception as e:  # noqa: BLE001
                 bad("client-config-refused", "cannot configure the client: %r" % e)
                 continue
             if any(v is not None for _, v in cfg):
                 nt += 1
             o1 = H.call(c, "initiate_upgrade_connection")
+            if pending and o1.kind == "ok":
+                # a further settings change that is still unacknowledged while the upgrade is compared.  Its
+                # SETTINGS frame follows the preface on the wire (the peer really gets it): a change whose
+                # frame never reaches the peer is not something the library can be held to.
+                o1b = H.call(c, "update_settings", dict(PENDING_UPDATE))
+                if o1b.kind != "ok":
+                    bad("pending-update-refused", "update_settings after initiate_upgrade_connection -> %s" % o1b.brief())
+                    continue
+                o1.raw += o1b.raw
             s = H.new_conn(False)
             o2 = H.call(s, "initiate_upgrade_connection", o1.ret)
             if o1.kind != "ok" or o2.kind != "ok" or not isinstance(o1.ret, bytes):
@@ -146,9 +160,19 @@ def job_cfg(job):
                 continue
             r = H.recv(c, ans.raw)
             evs = [e for e in r.events if type(e).__name__ == "ResponseReceived"]
-            if r.kind != "ok" or len(evs) != 1 or evs[0].stream_id != 1 or [(bytes(a), bytes(b)) for a, b in evs[0].headers] != H.RESP + [(b"x-up", b"1")] \
-                    or evs[0].stream_ended is None:
-                bad("client-did-not-receive-response-on-stream-1", "client got %s %s" % (r.brief(), [H.event_brief(e) for e in r.events]))
+            resp_size = sum(len(a) + len(b) + 32 for a, b in H.RESP + [(b"x-up", b"1")])     # RFC 7540 6.5.2
+            received = (r.kind == "ok" and len(evs) == 1 and evs[0].stream_id == 1 and evs[0].stream_ended is not None
+                        and [(bytes(a), bytes(b)) for a, b in evs[0].headers] == H.RESP + [(b"x-up", b"1")])
+            if local[6] < resp_size and r.kind == "raise" and r.is_proto and int(r.code) == 11:
+                # the client itself declared that it accepts no header list of this size (a sender is not obliged
+                # to honour the advisory limit): refusing the response with ENHANCE_YOUR_CALM is the client's right
+                outcomes["response-over-clients-own-limit-refused"] = outcomes.get("response-over-clients-own-limit-refused", 0) + 1
+            elif not received:
+                detail = (r.msg or "").replace("Error decoding header block: ", "")[:60]
+                bad("client-did-not-receive-response-on-stream-1", "client got %s %s %s" % (r.brief(), r.msg or "", [H.event_brief(e) for e in r.events]),
+                    got=r.exc_name or "ok", detail=detail, hts=dict(cfg).get(1))
+            else:
+                outcomes["response-received"] = outcomes.get("response-received", 0) + 1
     return {"evaluations": n, "outcomes": outcomes, "nontrivial": nt, "violations": list(viols.values()),
             "samples": [{"layer": "configurations", "client_settings": dict(tuple(x) for x in job["cfgs"][0])}] if job["cfgs"] else []}
 
@@ -171,7 +195,7 @@ class Spec(c01.Spec):
     def initial(self):
         cfg = REPRESENTATIVE[self.idx]
         st = P.PairState.__new__(P.PairState)
-        st.conn = [make_client(cfg, False), H.new_conn(False)]
+        st.conn = [make_client(cfg), H.new_conn(False)]
         st.pipe = [bytearray(), bytearray()]
         st.ledger = [[], []]
         st.gone = [set(), set()]
